@@ -153,11 +153,13 @@ def compare_code(c, i, ref, x, co_code_hex=None):
         if "err" in ret:
             c.fail("argval", "disassemble_bytes-returned-list|raised", "%s Bytecode.disassemble_bytes(asm_format=%r) raised %s" % (tag, fmt, ret["err"]))
             continue
-        mine = dict((a["o"], a) for a in xi)
-        for b in ret["instrs"]:
-            a = mine.get(b["o"])
-            if a is None or a["op"] != b["op"]:
-                continue        # (SET_LINENO rows and the like are rearranged by the listing code)
+        # the listing code folds EXTENDED_ARG rows into the next row (asm) and moves SET_LINENO rows: align by sequence
+        skip = ("EXTENDED_ARG", "SET_LINENO")
+        seq_a = [a for a in xi if a["n"] not in skip]
+        seq_b = [b for b in ret["instrs"] if b["n"] not in skip]
+        if [a["op"] for a in seq_a] != [b["op"] for b in seq_b]:
+            continue
+        for a, b in zip(seq_a, seq_b):
             if a["a"] != b["a"] or a["v"] != b["v"]:
                 c.fail("argval", "disassemble_bytes-returned-list|%s|%s" % (fmt, a["k"]), "%s at %d %s: iteration gives operand %s -> %s, the list returned by "
                        "disassemble_bytes(asm_format=%r) has %s -> %s" % (tag, a["o"], a["n"], a["a"], cn.summary(a["v"]), fmt, b["a"], cn.summary(b["v"])))
